@@ -386,6 +386,76 @@ func ruleDeleteAllocation(c *Ctx, rule string) {
 		return false
 	}
 	okDel, _ := mustPassBefore(del.Blocks[0], w.deepHit(isDelete), func(*ssa.BasicBlock) bool { return false })
+	if !okDel {
+		// "delete only when present" removes as much as an unconditional delete: every
+		// delete of the table in DeleteAllocation's body is guarded by nothing but the
+		// presence of an entry under that very key
+		nDel, onlyPresence := 0, true
+		w.eachInstrDeep(del, func(in ssa.Instruction) {
+			if !isDelete(in) {
+				return
+			}
+			nDel++
+			call := in.(*ssa.Call)
+			for _, f := range w.factsAt(in) {
+				fine := false
+				var v ssa.Value
+				if f.Op == "true" && f.Truth {
+					v = f.X // comma-ok
+				} else if x, isNil, ok := nilFact(f); ok && !isNil {
+					v = x
+				}
+				if v != nil {
+					if ex, isE := stripIface(w.resolveLoad(v)).(*ssa.Extract); isE {
+						if lk, isL := ex.Tuple.(*ssa.Lookup); isL {
+							if _, lf, isFL := fieldLoad(lk.X); isFL && lf == fld && w.sameKey(lk.Index, call.Call.Args[1]) {
+								fine = true
+							}
+						}
+					}
+					if lk, isL := stripIface(w.resolveLoad(v)).(*ssa.Lookup); isL {
+						if _, lf, isFL := fieldLoad(lk.X); isFL && lf == fld && w.sameKey(lk.Index, call.Call.Args[1]) {
+							fine = true
+						}
+					}
+				}
+				if !fine && in.Parent() != del {
+					// facts inherited from the call site of the helper are not conditions of the delete
+					site := w.singleSiteCI(in.Parent())
+					if site != nil {
+						for _, sf := range w.factsAt(site) {
+							if w.factStr(sf) == w.factStr(f) {
+								fine = true
+							}
+						}
+					}
+				}
+				if !fine {
+					onlyPresence = false
+				}
+			}
+		})
+		// and the function that holds it is entered on every path
+		if nDel > 0 && onlyPresence {
+			reach, _ := mustPassBefore(del.Blocks[0], func(in ssa.Instruction) bool {
+				if isDelete(in) {
+					return true
+				}
+				call, ok := in.(*ssa.Call)
+				if !ok || call.Call.StaticCallee() == nil {
+					return false
+				}
+				has := false
+				w.eachInstrDeep(call.Call.StaticCallee(), func(in2 ssa.Instruction) {
+					if isDelete(in2) {
+						has = true
+					}
+				})
+				return has && w.singleSiteCI(call.Call.StaticCallee()) == ssa.CallInstruction(call)
+			}, func(*ssa.BasicBlock) bool { return false })
+			okDel = reach
+		}
+	}
 	if okDel {
 		c.OK(rule, fname(del), "map delete", w.pos(del.Pos()), "delete(m.allocations, fingerprint) on every path")
 	} else {
